@@ -219,7 +219,12 @@ func (w *SenderWorker) Process(sqe *bus.SQE[t_aio.Submission, t_aio.Completion])
 		return
 	}
 
-	util.Assert((logicalRecv != nil) != (physicalRecv != nil), "one of logical or physical recv must be nil, but not both")
+	if (logicalRecv != nil) == (physicalRecv != nil) {
+		// for example the JSON value null: neither a logical nor a physical receiver
+		cqe.Error = fmt.Errorf("invalid receiver %s", sqe.Submission.Sender.Task.Recv)
+		w.aio.EnqueueCQE(cqe)
+		return
+	}
 
 	var recv *receiver.Recv
 
